@@ -110,6 +110,37 @@ def zoo(tier, seed):
         note="MixedFunctionSpace, block (1,0) non-empty",
         bil=u0 * v0 * dx + u0.dx(0) * v1 * ds + inner(grad(u1), grad(v1)) * dx))
 
+    # list tensors with literal zeros in every position next to components of different arity
+    A(Z("list_tensor_zero_positions", raw_quick=True,
+        form=inner(as_vector([u.dx(0), 0]), grad(v)) * dx(1) + inner(as_vector([0, u]), grad(v)) * dx(2)
+        + inner(as_vector([u, 0]), as_vector([v, v * g])) * dx(3) + inner(as_vector([0, u * g]), as_vector([v * g, v])) * dx(4)
+        + dot(as_vector([0, u, 0]), as_vector([v, v * g, v])) * dx(5)
+        + dot(as_vector([u, 0, 0]), as_vector([v, v * g, v])) * dx(6)
+        + dot(as_vector([0, 0, u + f]), as_vector([v, v * g, v])) * dx(7)
+        + inner(as_vector([f, 0]), as_vector([v, v])) * ds + inner(as_vector([0, f]), grad(v)) * ds(1)
+        + inner(ufl.as_matrix([[u, 0], [0, 0]]), outer(grad(v), w)) * ds(2)
+        + inner(ufl.as_matrix([[0, 0], [0, u - f]]), outer(grad(v), w)) * ds(3)
+        + f * v * dx, f=h,
+        note="every position of the zero component; the arguments of a list tensor are those of ANY component"))
+    # MixedFunctionSpace forms that use a strict subset of the parts (action with a coefficient list must
+    # pair by part), and interior-facet terms with every combination of restrictions through the block
+    # extraction behind lhs/rhs/system
+    A(Z("parts_trial1_only", raw_quick=True, form=u1 * v0 * dx + inner(grad(u1), grad(v1)) * dx + f * v1 * dx + g * v0 * ds,
+        f=[Coefficient(V), Coefficient(P2)], energy=False, adjoint=False,
+        note="only the part-1 trial function occurs"))
+    A(Z("parts_trial0_test1_only", raw_quick=True, form=u0.dx(0) * v1 * dx + u0 * v1 * ds + f * v1 * dx,
+        f=[Coefficient(V), Coefficient(P2)], energy=False, adjoint=False,
+        note="only trial part 0 and test part 1 occur"))
+    A(Z("parts_linear_part1_only", raw_quick=True, form=f * v1 * dx + g * v1.dx(1) * ds,
+        f=[Coefficient(V), Coefficient(P2)], energy=False, adjoint=False,
+        note="linear form on the part-1 test function only: action replaces it by f[1]"))
+    A(Z("parts_facet", raw_quick=True,
+        form=u0("-") * v0("+") * dS + u0("+") * v1("-") * dS + jump(u1) * avg(v1) * dS(1)
+        + u1("-").dx(0) * v0("-") * dS(1) + f("-") * v1("-") * dS + avg(g) * v0("+") * dS + h("+") * v0("-") * dS(1)
+        + u0 * v0 * dx,
+        f=[Coefficient(V), Coefficient(P2)], energy=False, adjoint=False,
+        note="MixedFunctionSpace, interior facets, every combination of '+'/'-' restrictions"))
+
     # seeded random combinations of a term pool (measures, subdomain ids, metadata vary)
     rng = random.Random(seed)
     n_rand = 4 if tier == "quick" else 24
